@@ -1372,6 +1372,26 @@ class SuperVal:
         self.bound = bound
 
 
+@builtin("sum")
+def _sum(I, args, kwargs, node):
+    tot = args[1] if len(args) > 1 else 0
+    for x in I.iterate(args[0]):
+        if isinstance(x, Opaque):
+            raise Undecided("sum over opaque values")
+        tot = tot + x
+    return tot
+
+
+@builtin("next")
+def _next(I, args, kwargs, node):
+    items = I.iterate(args[0])
+    if not items:
+        if len(args) > 1:
+            return args[1]
+        raise PyRaise("StopIteration", "")
+    return items[0]
+
+
 @builtin("print")
 def _print(I, args, kwargs, node):
     return None
